@@ -4,6 +4,6 @@ d=$1
 cd /repo || exit 2
 if [ -n "$(git status --porcelain)" ]; then echo "/repo is dirty"; exit 2; fi
 if ! git apply --3way $d/patch.diff 2>/dev/null; then git apply $d/patch.diff || { echo "patch does not apply"; exit 2; }; fi
-/verif/bin/dnsverif -prop all -no-evidence -verif /verif 2>&1 | grep -E "VIOLATION|UNDECIDED|: C[0-9][0-9]\.[a-z-]+: " | grep -v "^VIOLATION" | cut -c1-400
+/verif/bin/dnsverif -prop all -no-evidence -verif /verif 2>&1 | grep -E "VIOLATION|UNDECIDED|: C[0-9][0-9]\.[a-z0-9-]+: " | grep -v "^VIOLATION" | cut -c1-400
 git reset -q --hard HEAD
 git status --porcelain | head -3
